@@ -240,4 +240,9 @@ def phased_failure_family(run):
 
 
 def replay(path):
+    import json
+    d = json.load(open(path))
+    if d['replay'].get('kind') == 'phased-failure':
+        print(d['what'])
+        return core.replay_family('C11', d['key'], phased_failure_family)
     return X.replay(path, 'C11')
